@@ -343,7 +343,7 @@ func checkOnPCShape(ctx *Ctx, m *CPUModel, rs string) {
 				continue
 			}
 			ncalls++
-			if !iff.Block().Succs[0].Dominates(c.Block()) || iff.Block().Succs[0] == iff.Block().Succs[1] {
+			if !edgeDominates(iff.Block(), 0, c.Block()) {
 				bad = "the callback call is not confined to the found edge"
 			}
 		}
